@@ -42,9 +42,15 @@ PROP = dict(
                   "types/utils.go:211-232 (SafeMath); tied by calling the real amm.Deposit, amm.Withdraw, amm.CreateRangedPool, "
                   "amm.NewRangedPool (DeriveTranslation) and RangedPool.Price on every generated argument tuple and comparing "
                   "every output integer / raw Dec bit for bit (ok / panic, amounts, supply, translation, price)",
-                  "the keeper's execution of requests against bank balances (x/liquidity/keeper/pool.go:493-637) is not modelled "
-                  "here: it passes the reserve balances, the pool coin supply and the request amounts to amm.Deposit / amm.Withdraw "
-                  "unchanged and moves exactly the returned amounts (custody of those transfers is property C04)"],
+                  "Model/PoolKeeper.lean is hand-written from x/liquidity/keeper/pool.go:365-669, 863-944 and batch.go:34-53 (which "
+                  "balances, supply, request coins and fee rate reach amm.Deposit / amm.Withdraw, what is transferred, minted, burnt, "
+                  "refunded, request status, pool disabling); tied by TestC06Keeper: the real liquidity keeper driven through the "
+                  "message router and the real End/BeginBlocker, WithdrawFeeRate set through the real governance proposal handler; "
+                  "request records, reserve balances, pool coin supply and every balance delta of LP wallets, GlobalEscrow and the "
+                  "module account are compared with the model, and the fairness laws are evaluated on the real values",
+                  "inputs of a keeper step taken from the real chain, not modelled here: the effect of the order matching on the "
+                  "reserves (C05 / C04), pool creation through the keeper, farming records, wallet balances before a message; "
+                  "x/bank moves exactly what it is told (custody is property C04)"],
     assumptions=["arguments of amm.Deposit: reserves >= 0 and not both zero, pool coin supply > 0, offered amounts >= 0 "
                  "(keeper: the pool is not depleted, coins are validated non-negative)",
                  "arguments of amm.Withdraw: reserves >= 0, supply > 0, 0 <= withdrawn shares <= supply, 0 <= fee rate <= 1",
@@ -52,14 +58,19 @@ PROP = dict(
     rule="each case is one call of the real amm function on one argument tuple: exhaustive over all (rx,ry,ps,x,y) <= 8 "
          "(thorough: 12) for Deposit and all (rx,ry,ps,pc) <= 8 (12) x 7 fee rates for Withdraw, plus boundary-directed random "
          "tuples up to 10^40 and beyond (to 10^76), ranged-pool creations over on-tick and off-tick price triples in "
-         "[10^-15, 10^20] and NewRangedPool over arbitrary reserves; distinct = distinct trace line, non-trivial = the call "
-         "returned normally",
+         "[10^-15, 10^20], NewRangedPool over arbitrary reserves and SetBalances (translation kept / re-derived) at the ends "
+         "of the pool's curve, on it and anywhere; distinct = distinct trace line, non-trivial = the call returned normally. "
+         "TestC06Keeper: a case is one history (pkeep.begin) of a real chain instance: 2 apps, 1-2 pairs, basic and ranged "
+         "pools, 30-80 blocks of MsgDeposit / MsgWithdraw / MsgDepositAndFarm / MsgUnfarmAndWithdraw / donations / orders / "
+         "fee proposals through the real handlers and blockers",
 )
 
 META = dict(
     technique="Lean 4 proof over an executable model of the 18-digit fixed-point share arithmetic (floor / half-even / "
-              "ceiling lemmas, nonlinear integer inequalities) + bit-for-bit differential correspondence with the real "
-              "amm functions; the laws are also evaluated by the Lean driver on the real outputs",
+              "ceiling lemmas, nonlinear integer inequalities) and of the keeper's request execution (guards, transfers, batch "
+              "order; invariant + induction over histories) + bit-for-bit differential correspondence with the real amm "
+              "functions and with the real liquidity keeper driven through router and blockers; the laws are also evaluated "
+              "by the Lean driver on the real outputs / transfers",
     design_ref="DESIGN.md §5 C06",
     text="Kernel-checked for ALL integer arguments on the stated domains (no upper bound needed, the SafeMath overflow arm "
          "returns zeros): Deposit accepts 0 <= ax <= x, 0 <= ay <= y; minted shares satisfy pc/ps <= a/r + (10^18+2)/(2*10^36) "
@@ -69,7 +80,17 @@ META = dict(
          "its domain; overflow is reachable inside the 10^40 bounds for Deposit (returns zeros) and impossible for Withdraw. "
          "The ranged-pool clause 'price always within [min,max]' is FALSE of the code (counterexample theorems, replayed on "
          "the real code first in every run: one ulp outside at everyday prices, 85 % below min at prices near 10^20); proved "
-         "instead: price lies between the end-point prices of the pool's own translated curve (partial).",
-    note="Trusted: Lean kernel, Base/Dec.lean as validated by TestDec, the hand-written model as far as the correspondence "
-         "run exercises it. Monitor ranged_price_in_range fails on the unchanged tree (genuine finding, see notes/C06.md).",
+         "instead: price lies between the end-point prices of the pool's own translated curve (partial); with the translation "
+         "kept (SetBalances derive=false) every reserve pair of the reachable box prices between the two curve ends and the "
+         "price moves with the swap; re-derivation (derive=true, every later block) yields exactly NewRangedPool on the new "
+         "reserves and does not preserve the end points (fixed-point characterisation + counterexample on the pool's own "
+         "curve: the D15 mechanism). KEEPER LEVEL (Model/PoolKeeper.lean), for every execution of a deposit / withdraw "
+         "request on basic and ranged pools, from the end-block batch or inside MsgDepositAndFarm / MsgUnfarmAndWithdraw: a "
+         "succeeded execution moved exactly amm.Deposit / amm.Withdraw of the pool's own reserve balances, bank supply, the "
+         "request's coins and the app's WithdrawFeeRate; accepted + refund = offered; paid out <= pro rata x (1 - fee); burn + "
+         "refund = requested pool coin; the whole supply redeems the entire reserves and disables the pool; reserves per share "
+         "do not decrease over ANY history of executed requests ((1-10^-17)^k for k deposits), per pool of a batch.",
+    note="Trusted: Lean kernel, Base/Dec.lean as validated by TestDec, the hand-written models as far as the correspondence "
+         "runs exercise them (TestC06: pure amm functions; TestC06Keeper: the real keeper through router and blockers). Monitor "
+         "ranged_price_in_range fails on the unchanged tree (finding D15, see notes/C06.md).",
 )
